@@ -11,7 +11,8 @@ from xknx.io import ConnectionConfig, GatewayScanFilter, SecureConfig
 from xknx.io.gateway_scanner import GatewayDescriptor, GatewayScanner
 from xknx.io.knxip_interface import KNXIPInterface
 from xknx.knxip import HPAI, DIBServiceFamily, KNXIPFrame, SearchResponse, SearchResponseExtended
-from xknx.knxip.dib import DIBDeviceInformation, DIBSecuredServiceFamilies, DIBSuppSVCFamilies
+from xknx.knxip.dib import DIBDeviceInformation, DIBGeneric, DIBSecuredServiceFamilies, DIBSuppSVCFamilies
+from xknx.knxip.knxip_enum import DIBTypeCode
 from xknx.secure.keyring import InterfaceType, Keyring, XMLInterface
 from xknx.telegram import IndividualAddress
 
@@ -27,13 +28,14 @@ LEVEL_TEXT = (
     "DIB absent/empty/{tunnelling}/{routing}/both, device address present/absent, extended or plain search response) x all 32 scan-filter "
     "flag sets (+ None-valued and name filters) x 7 keyring situations, each run through the real automatic start; Core-V2 gateways "
     "additionally answer both search requests (legacy answer without secured-families DIB before the extended one, and after it with the "
-    "secure attempt failing for lack of credentials); plus generated sequences of 2-4 gateways (single or double answers) with failing "
+    "secure attempt failing for lack of credentials); the capability sets announcing a secured service are also answered with every arrangement of their DIBs (all permutations, duplicated "
+    "DIBs, a foreign DIB in between); plus generated sequences of 2-4 gateways (single or double answers, rearranged DIBs) with failing "
     "connection attempts. The single-gateway product is completed (exhaustive); sequences are sampled."
 )
 LEVEL_NOTE = (
     "Trusted: CPython, asyncio. GatewayScanner.async_scan is replaced (class level, restored) by a generator that feeds real parsed "
     "SearchResponse(Extended) frames to the real _response_rec_callback and yields what it queued; no socket is opened. Ground truth for "
-    "'announces the service as secured' is the generated secured-families DIB (of the extended answer), not the parsed descriptor. Judged: any _start_tunnelling_udp/"
+    "'announces the service as secured' is the generated secured-families DIB (of the extended answer; the set of DIBs, whatever their order, repetition or neighbours), not the parsed descriptor. Judged: any _start_tunnelling_udp/"
     "_start_tunnelling_tcp call for a gateway announcing secured tunnelling, any _start_routing call for a gateway announcing secured "
     "routing; GatewayScanFilter.match (name=None) against the predicate 'an enabled method is supported and its security requirement "
     "agrees'. Not judged (recorded): a gateway that passes the filter but for which no start method exists (reported as connected without "
@@ -91,11 +93,35 @@ class Caps:
             return ("ext", "legacy+ext", "ext+legacy")
         return ("ext",)
 
-    def frames(self, ip: str, mode: str):
-        """[(kind, parsed frame)] in arrival order for a response mode."""
-        return [(kind, self.frame(ip, extended=(kind == "ext"))) for kind in mode.split("+")]
+    def frames(self, ip: str, mode: str, layout=None):
+        """[(kind, parsed frame)] in arrival order for a response mode (layout applies to the extended answer)."""
+        return [(kind, self.frame(ip, extended=(kind == "ext"), layout=layout if kind == "ext" else None)) for kind in mode.split("+")]
 
-    def frame(self, ip: str, extended=None):
+    def dib_names(self, extended=None):
+        """Names of the DIBs this gateway's answer consists of (default order)."""
+        extended = self.extended if extended is None else extended
+        names = (["dev"] if self.has_ia else []) + ["supp"]
+        if self.secured is not None and extended:
+            names.append("sec")
+        return tuple(names)
+
+    def layouts(self):
+        """DIB arrangements of the extended answer: every permutation, duplicated DIBs, a foreign DIB in between.
+
+        What the gateway announces is the set of DIBs; their order, repetition or neighbours do not change it."""
+        names = self.dib_names(True)
+        out = list(itertools.permutations(names))
+        if "sec" in names:
+            out += [("supp", "sec", "supp") + (("dev",) if self.has_ia else ()),
+                    ("sec", "supp", "sec") + (("dev",) if self.has_ia else ()),
+                    ("sec", "sec", "supp", "supp") + (("dev",) if self.has_ia else ()),
+                    tuple(n for x in names for n in (x, "other"))[:-1],
+                    ("sec", "other", "supp") + (("dev",) if self.has_ia else ())]
+        else:
+            out += [names + ("supp",), tuple(n for x in names for n in (x, "other"))]
+        return [lay for lay in dict.fromkeys(out) if lay != names]
+
+    def frame(self, ip: str, extended=None, layout=None):
         extended = self.extended if extended is None else extended
         body = (SearchResponseExtended if extended else SearchResponse)(control_endpoint=HPAI(ip, 3671))
         dibs = []
@@ -126,10 +152,31 @@ class Caps:
             if "R" in self.secured:
                 sec.families.append(DIBSecuredServiceFamilies.Family(DIBServiceFamily.ROUTING, 1))
             dibs.append(sec)
+        if layout is not None:
+            by_name = dict(zip(self.dib_names(extended), dibs, strict=True))
+            other = DIBGeneric()
+            other.dtc = DIBTypeCode.MFR_DATA
+            other.data = b"\x00\xc5\x01\x04"
+            by_name["other"] = other
+            dibs = [by_name[n] for n in layout]
         body.dibs = dibs
         raw = KNXIPFrame.init_from_body(body).to_knx()
         parsed, _rest = KNXIPFrame.from_knx(raw)   # through the real serialiser and parser
         return parsed
+
+
+def layout_class(layout) -> str:
+    """Coarse, stable name of a DIB arrangement (for mechanism strings)."""
+    if layout is None:
+        return "default-dib-order"
+    parts = []
+    if "sec" in layout and "supp" in layout and layout.index("sec") < layout.index("supp"):
+        parts.append("secured-families-dib-before-supported-families-dib")
+    if len(set(layout)) < len(layout):
+        parts.append("duplicated-dib")
+    if "other" in layout:
+        parts.append("foreign-dib-in-between")
+    return "+".join(parts) or "permuted-dib-order"
 
 
 def all_caps():
@@ -171,7 +218,7 @@ class Scenario:
     """What the fake network offers during one automatic start."""
 
     def __init__(self):
-        self.gateways: list[tuple[Caps, str, list]] = []     # (caps, ip, [(kind, parsed frame)] in arrival order)
+        self.gateways: list[tuple] = []     # (caps, ip, [(kind, parsed frame)] in arrival order, DIB layout of the extended answer | None)
         self.outcomes: dict[str, str] = {}                   # ip -> "ok" | "comm" | "secure"
         self.log: list[tuple] = []
         self.current: int | None = None
@@ -189,7 +236,7 @@ async def fake_async_scan(self):
     queue: asyncio.Queue = asyncio.Queue()
     # all answers are received (in the scripted order) while the consumer is busy with the first one, as on a real network
     arrivals = []
-    for pos, (_caps, ip, frames) in enumerate(SCN.gateways):
+    for pos, (_caps, ip, frames, _layout) in enumerate(SCN.gateways):
         for kind, frame in frames:
             self._response_rec_callback(frame, HPAI(ip, 3671), _FakeUDP, interface="veth0", queue=queue)
             if queue.empty():
@@ -314,7 +361,18 @@ async def run_start(gateways, outcomes, flags, name, keyring_kind, use_default_f
     return result, SCN.log
 
 
-def judge_log(ctx, log, gateways, flags, name, keyring_kind, outcomes, result):
+def offending_starts(log, gateways):
+    """Methods of the unsecured starts in a log that the statement forbids (no recording)."""
+    out = set()
+    for entry in log:
+        if entry[0] == "start" and entry[2] is not None:
+            caps = gateways[entry[2]][0]
+            if (entry[1] in ("_start_tunnelling_udp", "_start_tunnelling_tcp") and caps.t_secured) or (entry[1] == "_start_routing" and caps.r_secured):
+                out.add(entry[1])
+    return out
+
+
+def judge_log(ctx, log, gateways, flags, name, keyring_kind, outcomes, result, layout_specific=False):
     """The statement: no unsecured start for a gateway that announces that service as secured."""
     starts = []
     last_kind = None
@@ -329,7 +387,7 @@ def judge_log(ctx, log, gateways, flags, name, keyring_kind, outcomes, result):
         if pos is None:
             ctx.inconclusive("a start method was called before any gateway was offered")
             continue
-        caps, gw_ip, _frames = gateways[pos]
+        caps, gw_ip, _frames, layout = gateways[pos]
         if ip is not None and ip != gw_ip:
             ctx.violation("start-called-with-address-of-another-gateway",
                           {"method": method, "gateway_ip_used": ip, "gateway_offered": gw_ip},
@@ -340,11 +398,14 @@ def judge_log(ctx, log, gateways, flags, name, keyring_kind, outcomes, result):
                "filter_flags(tunnelling,tunnelling_tcp,routing,secure_tunnelling,secure_routing)": list(flags), "filter_name": name,
                "keyring": keyring_kind, "outcomes": [outcomes.get(g[1], "ok") for g in gateways], "result": result,
                "responses": ["+".join(k for k, _f in g[2]) for g in gateways],
+               "dib_layouts": [None if g[3] is None else list(g[3]) for g in gateways],
                "descriptor_from": last_kind,
                "caps_key": list(caps.key())}
         detail = f"tunnellingv{caps.tunnelling}-routing{caps.routing}"
         if last_kind == "legacy" and len(gateways[pos][2]) > 1:
             detail += "-via-legacy-search-response-of-core-v2-device"
+        elif layout is not None and layout_specific:
+            detail += "-" + layout_class(layout)   # only when the default DIB order of the same gateway does not show it
         if method in ("_start_tunnelling_udp", "_start_tunnelling_tcp"):
             ctx.count("unsecured_tunnel_starts_judged")
             if caps.t_secured:
@@ -374,10 +435,17 @@ def check_filter_predicate(ctx, caps_list, frames):
         if caps.secured is not None:
             manual.tunnelling_requires_secure = caps.t_secured
             manual.routing_requires_secure = caps.r_secured
+        described = [("parsed", descriptor), ("manual", manual)]
+        if caps.extended:
+            for layout in caps.layouts():
+                desc = GatewayDescriptor(ip_addr="10.0.0.2", port=3671)
+                desc.parse_dibs(caps.frame("10.0.0.2", layout=layout).body.dibs)
+                described.append(("parsed:" + layout_class(layout), desc))
+                ctx.count("descriptors_parsed_from_rearranged_dibs")
         for flags, name in variants:
             flt = make_filter(flags, name)
             strict, lenient = ref_filter_match(flags, caps)
-            for how, desc in (("parsed", descriptor), ("manual", manual)):
+            for how, desc in described:
                 ctx.ev()
                 try:
                     got = flt.match(desc)
@@ -419,6 +487,8 @@ def check_filter_predicate(ctx, caps_list, frames):
                     else:
                         sec = ("T" if caps.t_secured else "") + ("R" if caps.r_secured else "") or "none"
                         about = f"tunnellingv{caps.tunnelling}-routing{caps.routing}-secured-{sec}"
+                    if how.startswith("parsed:") and flt.match(descriptor) is strict:
+                        about += "-" + how[len("parsed:"):]   # the default DIB order of the same gateway is judged correctly
                     ctx.violation(
                         f"filter-{direction}-method[{culprit or '+'.join(enabled) or 'none'}]-{about}",
                         {"caps": caps.as_dict(), "flags(tunnelling,tunnelling_tcp,routing,secure_tunnelling,secure_routing)": list(flags),
@@ -431,7 +501,7 @@ async def single_gateway_product(ctx, caps_list, frames):
     for caps in caps_list:
         for mode in caps.modes():
             frame_list = [(k, frames[caps.index]) for k in (mode,)] if "+" not in mode else caps.frames(ip, mode)
-            gateways = [(caps, ip, frame_list)]
+            gateways = [(caps, ip, frame_list, None)]
             # both answers: "legacy first" with working attempts; "extended first" with the secure attempt failing (no credentials),
             # so that the automatic start moves on to the next queued descriptor of the same gateway
             outcomes = {ip: "nosec"} if mode == "ext+legacy" else {}
@@ -471,6 +541,51 @@ async def single_gateway_product(ctx, caps_list, frames):
                                     "start_calls": [m for m, _p in starts], "result": result})
 
 
+LAYOUT_FILTERS = ((True, True, True, True, True), (True, True, True, False, False), (False, False, False, True, True),
+                  (True, False, False, False, False), (False, True, False, False, False), (False, False, True, False, False))
+
+
+async def rearranged_dibs_product(ctx, caps_list):
+    """Security-relevant capability sets with every DIB arrangement of the extended answer through the real automatic start."""
+    ip = "10.0.0.2"
+    for caps in caps_list:
+        if not caps.extended or not (caps.t_secured or caps.r_secured):
+            continue
+        default_gw = [(caps, ip, caps.frames(ip, "ext"), None)]
+        default_offending = {}
+        default_offered = {}
+        for flags in LAYOUT_FILTERS:
+            for keyring_kind in ("none", "host_listed"):
+                _r, dlog = await run_start(default_gw, {}, flags, None, keyring_kind)
+                default_offending[(flags, keyring_kind)] = offending_starts(dlog, default_gw)
+                default_offered[(flags, keyring_kind)] = any(e[0] == "offered" for e in dlog)
+        for layout in caps.layouts():
+            gateways = [(caps, ip, caps.frames(ip, "ext", layout), layout)]
+            ctx.count("single_gateway_rearranged_dib_answers")
+            ctx.count("single_gateway_dib_layout_" + layout_class(layout))
+            for flags in LAYOUT_FILTERS:
+                for keyring_kind in ("none", "host_listed"):
+                    ctx.ev()
+                    result, log = await run_start(gateways, {}, flags, None, keyring_kind)
+                    if result.startswith("unexpected"):
+                        ctx.inconclusive(f"automatic start raised {result} for {caps.as_dict()} layout {layout}")
+                        continue
+                    ctx.count("automatic_starts")
+                    ctx.count("automatic_starts_rearranged_dibs")
+                    ctx.count("result_" + result)
+                    specific = bool(offending_starts(log, gateways) - default_offending[(flags, keyring_kind)])
+                    starts = judge_log(ctx, log, gateways, flags, None, keyring_kind, {}, result, layout_specific=specific)
+                    offered = any(e[0] == "offered" for e in log)
+                    strict, lenient = ref_filter_match(flags, caps)
+                    if strict == lenient and offered is not strict:
+                        suffix = "" if default_offered[(flags, keyring_kind)] is offered else "-" + layout_class(layout)
+                        ctx.violation(("scan-offers-gateway-against-filter" if offered else "scan-withholds-gateway-matching-filter") + suffix,
+                                      {"caps": caps.as_dict(), "flags": list(flags), "keyring": keyring_kind, "dib_layout": list(layout)},
+                                      f"scan with filter {flags} {'offered' if offered else 'withheld'} {caps.as_dict()} answering with DIBs {layout}")
+                    ctx.distinct(("layout", layout_class(layout), caps.tunnelling, caps.routing, caps.t_secured, caps.r_secured,
+                                  keyring_kind, flags, tuple(m for m, _p in starts), result))
+
+
 async def gateway_sequences(ctx, caps_list, frames_for):
     rng = ctx.rng
     n = ctx.scale(15000, 640000)
@@ -486,7 +601,10 @@ async def gateway_sequences(ctx, caps_list, frames_for):
             caps = rng.choice(interesting if rng.random() < 0.85 else caps_list)
             ip = f"10.0.{pos}.2"
             mode = rng.choice(caps.modes())
-            gateways.append((caps, ip, frames_for(caps, ip, mode)))
+            layout = rng.choice(caps.layouts()) if caps.extended and rng.random() < 0.5 else None
+            if layout is not None:
+                ctx.count("sequence_gateways_with_rearranged_dibs")
+            gateways.append((caps, ip, frames_for(caps, ip, mode, layout), layout))
             if "+" in mode:
                 ctx.count("sequence_gateways_answering_twice")
             outcomes[ip] = rng.choice(("comm", "comm", "secure", "nosec", "ok")) if pos < k - 1 else rng.choice(("ok", "ok", "nosec", "comm"))
@@ -518,15 +636,16 @@ def run(ctx):
                 "filter_match_judged", "filter_expected_match", "filter_expected_no_match", "gateway_offered", "gateway_not_offered",
                 "automatic_starts_sequences", "sequences_with_attempts_on_several_gateways",
                 "single_gateway_response_mode_legacy_then_ext", "single_gateway_response_mode_ext_then_legacy",
-                "sequence_gateways_answering_twice")
+                "sequence_gateways_answering_twice", "descriptors_parsed_from_rearranged_dibs", "automatic_starts_rearranged_dibs",
+                "single_gateway_dib_layout_secured-families-dib-before-supported-families-dib", "sequence_gateways_with_rearranged_dibs")
     caps_list = all_caps()
     frames = {c.index: c.frame("10.0.0.2") for c in caps_list}
     frame_cache: dict = {}
 
-    def frames_for(caps, ip, mode):
-        key = (caps.index, ip, mode)
+    def frames_for(caps, ip, mode, layout=None):
+        key = (caps.index, ip, mode, layout)
         if key not in frame_cache:
-            frame_cache[key] = caps.frames(ip, mode)
+            frame_cache[key] = caps.frames(ip, mode, layout)
         return frame_cache[key]
 
     # ground-truth self test: the generated sets contain what the oracle relies on
@@ -544,8 +663,9 @@ def run(ctx):
         with Patched():
             if ctx.shard == 0:
                 loop.run_until_complete(single_gateway_product(ctx, caps_list, frames))
+                loop.run_until_complete(rearranged_dibs_product(ctx, caps_list))
                 ctx.exhaustive = True
-                ctx.extra["exhaustive_part"] = "432 capability sets (the 120 Core-V2 ones in 3 answer modes: extended, legacy+extended, extended+legacy with failing secure attempt) x 37 filters x 7 keyring situations (single gateway); filter predicate on the same sets"
+                ctx.extra["exhaustive_part"] = "432 capability sets (the 120 Core-V2 ones in 3 answer modes: extended, legacy+extended, extended+legacy with failing secure attempt) x 37 filters x 7 keyring situations (single gateway); the 216 capability sets announcing a secured service x every DIB arrangement of the answer (permutations, duplicated DIBs, a foreign DIB in between) x 6 filters x 2 keyring situations; filter predicate on the same sets and all DIB arrangements"
             loop.run_until_complete(gateway_sequences(ctx, caps_list, frames_for))
     finally:
         loop.run_until_complete(loop.shutdown_asyncgens())
@@ -566,7 +686,9 @@ def replay(ctx, witness):
         caps = Caps(vals[0], vals[1], vals[2], vals[3], None if vals[4] is None else frozenset(vals[4]), vals[5], vals[6])
         ip = f"10.0.{pos}.2"
         mode = (witness.get("responses") or [None] * (pos + 1))[pos] or ("ext" if caps.extended else "legacy")
-        gateways.append((caps, ip, caps.frames(ip, mode)))
+        lay = (witness.get("dib_layouts") or [None] * (pos + 1))[pos]
+        lay = None if lay is None else tuple(lay)
+        gateways.append((caps, ip, caps.frames(ip, mode, lay), lay))
     outcomes = {g[1]: o for g, o in zip(gateways, witness["outcomes"], strict=True)}
     flags = tuple(witness["filter_flags(tunnelling,tunnelling_tcp,routing,secure_tunnelling,secure_routing)"])
     loop = asyncio.new_event_loop()
